@@ -2,7 +2,7 @@
    theorem cannot be weakened in its own file without this file failing to compile. *)
 From BT Require Import Base.Util.
 From BT Require Base.Float Model.RTree Model.BBIFile Model.BigWigWrite Model.Pipeline Model.TempBuf
-  Proofs.PipelineInv Proofs.PipelineThms Proofs.PipelineConv Proofs.PipelineLanes Properties.C11.
+  Model.BigBedWrite Proofs.BedZoomFit Proofs.PipelineInv Proofs.PipelineThms Proofs.PipelineConv Proofs.PipelineLanes Properties.C11.
 
 Module PinC11.
 Import Base.Float Model.RTree Model.BBIFile Model.BigWigWrite Model.Pipeline Proofs.PipelineInv Proofs.PipelineThms
@@ -40,6 +40,20 @@ Check (C11_splice_bigwig : forall fp o sizes input ids outs sum data,
       let s := run g sched (init bw_pre Ss) in
       terminal s = true ->
       sp_file s = bw_pre ++ data_bytes data /\ final_index PRE_DATA s = place PRE_DATA data).
+Check (C11_splice_bigbed : forall two_pass fp o sizes autosql input f,
+  BedZoomFit.bb_write_either two_pass fp o sizes autosql input = Ok f ->
+  exists sql fc ids outs data,
+    BigBedWrite.bb_schema autosql = Ok (sql, fc) /\ BigBedWrite.bb_collect o sizes input = Ok (ids, outs)
+    /\ BigBedWrite.bb_data o outs = Ok data /\
+    (exists pre' rest, length pre' = length (BigBedWrite.bb_pre sql) /\ f = pre' ++ data_bytes data ++ rest) /\
+    exists Ss,
+      Forall2 (fun c S => BigBedWrite.bed_sections (o_ips o) (BigBedWrite.bc_id c) (BigBedWrite.bc_entries c) = Ok S) outs Ss /\
+      concat Ss = data /\
+      forall g sched, g_fifo g = true ->
+        let s := run g sched (init (BigBedWrite.bb_pre sql) Ss) in
+        terminal s = true ->
+        sp_file s = BigBedWrite.bb_pre sql ++ data_bytes data /\
+        final_index (Nlen (BigBedWrite.bb_pre sql)) s = place (Nlen (BigBedWrite.bb_pre sql)) data).
 Check (C11_progress : forall g pre Ss sched, g_fifo g = true -> (1 <= g_cap g)%nat -> (1 <= g_win g)%nat ->
   let s := run g sched (init pre Ss) in
   terminal s = false -> exists t s', step g t s = Some s').
